@@ -11,7 +11,7 @@
 //   thread  = comma separated calls, `_` = no calls
 //   calls   S<cons> send | R<id>:<ok>:<hexdata> response | F loginEventFired | X clearOnAllMessagesHandled | Z cleanup
 //           B0/B1/B2 rejected send (empty contents / nil consumer / nil identifier)
-//   cons    p<tag> plain | c<tag>.<cons> chain (sends <cons> when invoked) | r<bid> forge relay of backend message bid
+//   cons    p<tag> plain | f<tag> plain whose OnMessageResponse returns an error | c<tag>.<cons> chain (sends <cons> when invoked) | r<bid> forge relay of backend message bid
 //           | e<bid> forge relay of a backend message with EMPTY data
 //   observation  cl=<id>:<hexcontents>,…  cons=<cons>:<reply>,…  be=<bid>:<ok>:<hexdata>,…  done=<n> out=<ids> q=<ids> fired=<b> cb=<b> fin=<n>
 package main
@@ -19,6 +19,7 @@ package main
 import (
 	"bytes"
 	"context"
+	"errors"
 	"fmt"
 	"net"
 	"sort"
@@ -122,6 +123,9 @@ func (h *harnessConsumer) OnMessageResponse(body []byte) error {
 	h.w.mu.Unlock()
 	if h.c.kind == 'c' {
 		return h.w.send(h.c.next)
+	}
+	if h.c.kind == 'f' {
+		return errors.New("consumer failed") // must not keep the login from completing
 	}
 	return nil
 }
@@ -458,8 +462,10 @@ func (g *gen) cons(depth int) string {
 	g.tag++
 	g.sends++
 	switch x := g.r.Intn(20); {
-	case x < 9:
+	case x < 7:
 		return fmt.Sprintf("p%d", g.tag)
+	case x < 9:
+		return fmt.Sprintf("f%d", g.tag)
 	case x < 15:
 		return fmt.Sprintf("r%d", g.tag)
 	case x < 16:
@@ -603,6 +609,9 @@ func main() {
 	fixed("witness", []string{"F", "Sp1", "R1:1:aa"}, []int{0, 1, 0, 1, 2, 2, 2}, true)
 	// W3: normal completion after two answers, then a late send + answer
 	fixed("witness", []string{"Sp1,Sp2,F", "R2:1:aa,R1:0:bb", "Sp3", "R3:1:cc"}, []int{0, 0, 0, 0, 1, 1, 1, 1, 1, 1, 2, 2, 3, 3, 3}, true)
+	// the consumer of the LAST answered message returns an error: the login must still complete (once)
+	fixed("fixed", []string{"Sp1,Sf2,F", "R1:1:aa,R2:1:bb"}, nil, true)
+	fixed("fixed", []string{"Sf1,F", "R1:0:-"}, nil, true)
 	// orderly flows
 	fixed("fixed", []string{"Sp1,Sp2,F", "R1:1:aa,R2:1:bb"}, nil, true)
 	fixed("fixed", []string{"Sp1,Sp2,F", "R2:1:aa,R2:1:bb,R7:1:cc,R1:0:dd"}, nil, true)
